@@ -6,6 +6,7 @@ import (
 	"encoding/json"
 	"errors"
 	"fmt"
+	"sort"
 	"sync"
 
 	"github.com/LiskHQ/lisk-engine/pkg/blockchain"
@@ -144,8 +145,15 @@ func ContentHash(height uint32, assets []*blockchain.BlockAsset, txs []*blockcha
 	var h [4]byte
 	binary.BigEndian.PutUint32(h[:], height)
 	buf.Write(h[:])
+	// order-independent over the assets: a real application looks its asset up by module name, so the order in which the generator
+	// passes them (application order while forging, sorted by module in the sealed block) cannot influence the state
+	hs := make([][]byte, 0, len(assets))
 	for _, a := range assets {
-		buf.Write(crypto.Hash(a.Encode()))
+		hs = append(hs, crypto.Hash(a.Encode()))
+	}
+	sort.Slice(hs, func(i, j int) bool { return bytes.Compare(hs[i], hs[j]) < 0 })
+	for _, h := range hs {
+		buf.Write(h)
 	}
 	buf.WriteByte(0xff)
 	for _, tx := range txs {
@@ -238,10 +246,10 @@ type abiCtx struct {
 // ABI is the fake application: deterministic in the block, so that every node computes the same result.
 type ABI struct {
 	failRevert int // scripted Revert failures left (guarded by App.mu)
-	App     *App
-	Genesis *NextParams
-	mu      sync.Mutex
-	ctx     *abiCtx
+	App        *App
+	Genesis    *NextParams
+	mu         sync.Mutex
+	ctx        *abiCtx
 	// InsertAssetsFn lets a test decide which assets the generator inserts (default: empty script).
 	InsertAssetsFn func(height uint32) []*blockchain.BlockAsset
 	// OnCall, if set, is invoked at the start of every ABI call with its name (fault injection / ordering probes).
